@@ -39,25 +39,26 @@ RULE = (
 )
 LEVEL_TEXT = (
     "Every chain of the stated grids is executed on the real code and compared character by character with the "
-    "reference output (or error class): quick = all chains of length <= 3 over two member names (6 kinds each, "
-    "nesting) x 3 body-chaining choices per level, length 4 over one member name, plus the page-argument / anonymous "
-    "block / attribute / dynamic-inherit grids up to length 3-4; thorough adds length 4 over two member names "
-    "(uniform chaining) and length 5 over one. Complete within those bounds; no sampling."
+    "reference output (or error class): quick = all chains of length <= 2 over two member names (6 kinds each, "
+    "nesting), length 3 with the second name restricted to 4 kinds, x 3 body-chaining choices per non-leaf level, "
+    "length 4 over one member name, plus the page-argument / anonymous block / attribute / dynamic-inherit grids up "
+    "to length 3-4; thorough = length <= 3 over two full member names, length 4 over two (uniform chaining), length "
+    "4-5 over one, the other grids one level longer. Complete within those bounds; no sampling."
 )
 LEVEL_NOTE = (
-    "Trusted: CPython eval/exec, the ~150-line reference interpreter in mc/c06_ir.py (appendix A5 of DESIGN.md). "
+    "Trusted: CPython eval/exec, the ~200-line reference interpreter in mc/c06_ir.py (appendix A5 of DESIGN.md). "
     "Templates of one level text are compiled once per worker and shared by all chains that contain that level "
     "(put_template into a real TemplateLookup); chain state lives in the per-render context."
 )
 ASSUMPTIONS = [
     "`next` in the most-derived template and `parent` in the base-most one are not defined by the statement: never generated",
     "an unresolvable member is an AttributeError (documented: hasattr/getattr on namespaces); the probes P/A catch exactly that",
-    "a chain whose reference evaluation exceeds 64 nested render callables is infinite (callables are stateless); Mako must then raise RecursionError (interpreter limit lowered to 400 frames during the render only)",
+    "a reference evaluation that nests more render callables than the program has (members + bodies) repeats one of them and, callables being stateless, never ends; Mako must then raise RecursionError (the interpreter limit is lowered, during the render only, to current depth + 8 frames per callable + 40)",
     "a top-level def and a block of one name in one template must be a CompileException (documented with the uniqueness rule); a nested def of that name: CompileException or acceptance both allowed",
     "DONT_CARE region: a named-block position that dispatches to a def whose signature takes no keyword arguments while the page has keyword arguments (the position forwards **pageargs; an override with an incompatible signature is the template author's error): only 'terminates' is demanded there. Family A declares its defs (**kw), so the def-overrides-block dispatch itself is checked",
     "member names avoid Namespace's own attributes (name, uri, template, context, module, filename, cache, attr, inherits, callables), which shadow members by construction",
     "level templates are compiled once per (uri, text) and re-used across chains; the lookup is a real TemplateLookup filled with put_template (lookup behaviour itself belongs to C07/C14)",
-    "templates are printed on one line (newline handling belongs to C01); the seed only picks member/attribute names, filler characters and uri spelling",
+    "templates are printed on one line, except that every anonymous block of the chain grids starts on a line of its own (newline handling belongs to C01; anonymous blocks sharing a line are the `anon2` cases of the error grid, where commit f98db69 repaired a defect); the seed only picks member/attribute names, filler characters and uri spelling",
 ]
 BOUNDS = {
     "quick": {
@@ -65,7 +66,7 @@ BOUNDS = {
         "B": "L=4, one member name x 6 kinds, same chaining",
         "C": "L<=3, member {absent,def,block} x page args x anonymous blocks x chaining {none,next,self,next(z=),self(z=)}",
         "D": "L<=4, member {absent,def} x module attribute x static/dynamic inherit x chaining {none,next}",
-        "errors": "11 positions: singles, ordered pairs x same/different name, block-in-block, def+block, anonymous pairs; standalone and as base of a 2-chain",
+        "errors": "11 positions: singles, ordered pairs x same/different name, block-in-block, def+block, anonymous pairs (one line / own lines); standalone, as base of a 2-chain, and as base whose leaf overrides the block",
     },
     "thorough": {
         "A": "L<=3: two member names x 6 kinds + nesting, full chaining; L=4: the same with uniform chaining (all none / all next / all self)",
@@ -245,7 +246,7 @@ def check_chain(g, chain, seed, st, R=None, twice=False):
 
 def check_grid_case(case, seed, st, mode):
     """mode 'alone': Template(text) ; mode 'base': the text is the base of a two-level chain, compiled through
-    TemplateLookup.put_string when the leaf is rendered"""
+    TemplateLookup.put_string when the leaf is rendered ; mode 'over': the same, the leaf overriding the block"""
     from mako import exceptions
     from mako.lookup import TemplateLookup
     from mako.template import Template
@@ -262,7 +263,9 @@ def check_grid_case(case, seed, st, mode):
     if mode == "alone":
         prog = {"files": {"g.html": f}, "main": "g.html", "ctx": {}}
     else:
-        leaf = {"page": None, "inherit": ("s", "g.html"), "attrs": [], "body": [("T", "leaf")]}
+        # 'over': the leaf also overrides the first block name of the grid template
+        lbody = [("T", "leaf")] + ([("B", al["n1"], [("T", "{over %s}" % al["n1"])])] if mode == "over" else [])
+        leaf = {"page": None, "inherit": ("s", "g.html"), "attrs": [], "body": lbody}
         prog = {"files": {"leaf.html": leaf, "g.html": f}, "main": "leaf.html", "ctx": {}}
     try:
         if mode == "alone":
@@ -338,7 +341,7 @@ def _run_job(job, st):
         cases = ir.grid_cases(job["tier"])
         seen = set()
         for case in cases:
-            for mode in ("alone", "base"):
+            for mode in ("alone", "base", "over"):
                 check_grid_case(case, seed, st, mode)
             key = ir.print_file(ir.grid_file(case, ir.alphabet(seed)))
             if key not in seen:
@@ -448,4 +451,4 @@ def corpus(limit=400):
     return out
 
 
-READY = False
+READY = True
